@@ -25,6 +25,12 @@ func (t Type) IsValid([]byte) error {
 		return util.ErrInvalid.Errorf("invalid char found in Type")
 	}
 
+	// NOTE the hint string, "<type>-<version>" is splitted at the first version
+	// separator, "-v<digit>"; Type with the separator can not be parsed back.
+	if regVersion.Match([]byte(t)) {
+		return util.ErrInvalid.Errorf("version separator found in Type")
+	}
+
 	return nil
 }
 
